@@ -22,6 +22,9 @@ sys.path.insert(0, HERE)
 from mutants import MUTANTS  # noqa
 
 
+TESTS_ONLY = '--tests-only' in sys.argv
+
+
 def run_one(m, with_tests):
     pid, name, path, old, new = m[:5]
     facets = m[5] if len(m) > 5 else []
@@ -43,6 +46,8 @@ def run_one(m, with_tests):
                                cwd=dst, env=dict(os.environ, PYTHONPATH=os.path.join(dst, 'modules')),
                                capture_output=True, text=True)
             tests = 'tests:%s' % ('pass' if p.returncode == 0 else 'FAIL')
+        if TESTS_ONLY:
+            return (pid, name, tests, '')
         env = dict(os.environ, VERIF_REPO=dst, VERIF_EVIDENCE_DIR=os.path.join(tmp, 'ev'),
                    VERIF_REPLAY_DIR=os.path.join(tmp, 'rp'))
         p = subprocess.run([os.path.join(VERIF, 'check'), pid, 'quick'] + list(facets), cwd=VERIF, env=env,
@@ -59,7 +64,7 @@ def run_one(m, with_tests):
 
 def main():
     args = sys.argv[1:]
-    with_tests = '--tests' in args
+    with_tests = '--tests' in args or TESTS_ONLY
     name_filter = None
     if '--name' in args:
         name_filter = args[args.index('--name') + 1]
@@ -70,7 +75,7 @@ def main():
     bad = 0
     for pid, name, status, detail in results:
         print('%-4s %-44s %-8s %s' % (pid, name, status, detail))
-        if status != 'caught':
+        if status != 'caught' and not (TESTS_ONLY and status == 'tests:pass'):
             bad += 1
     print('%d mutants, %d not caught' % (len(results), bad))
     return 1 if bad else 0
